@@ -144,6 +144,13 @@ def harnesses(tier):
         if h.name in want2:
             h.name = "L2:" + h.name
             hs.append(h)
+    # L5: the alternative, count-based q-value estimate (qvalue_algorithm="from_counts") is anchored - accepting
+    # everything is estimated at pi0 - under the kernel contracts of check C06
+    from checks import c06
+    for h in c06.harnesses(tier):
+        if h.name.startswith("qvalues[from_counts"):
+            h.name = "L5:" + h.name
+            hs.append(h)
     want3 = ("confidence[n=3,all switches]",) if tier == "quick" else ("confidence[n=4,dedup+rollup+decoys]", "confidence[n=3,all switches,chunk symbolic]")
     for h in c03.harnesses(tier):
         if h.name in want3:
@@ -236,6 +243,8 @@ def _lemma_reals():
     from checks import c02, c03
     REAL.setdefault("brew", c02.REAL["brew"])
     REAL.setdefault("real_model", c02.REAL["real_model"])
+    from checks import c06
+    REAL.setdefault("qvalues", c06.REAL["qvalues"])
     REAL.setdefault("confidence", c03.REAL["confidence"])
 
 
